@@ -743,6 +743,9 @@ type flowOpts struct {
 	ThroughAllCalls bool
 	// Arith follows BinOp operands.
 	Arith bool
+	// Returns follows a call result into the corresponding return operands of
+	// a statically known callee that has a body.
+	Returns bool
 }
 
 // derives reports whether some value satisfying pred is in the backward
@@ -760,6 +763,17 @@ func derives(v ssa.Value, opts flowOpts, pred func(ssa.Value) bool) bool {
 		}
 		switch t := x.(type) {
 		case *ssa.Extract:
+			if opts.Returns {
+				if c, ok := t.Tuple.(*ssa.Call); ok {
+					if f := c.Call.StaticCallee(); f != nil && f.Blocks != nil {
+						for _, r := range returnsOf(f) {
+							if t.Index < len(r.Results) && walk(r.Results[t.Index]) {
+								return true
+							}
+						}
+					}
+				}
+			}
 			return walk(t.Tuple)
 		case *ssa.Phi:
 			for _, e := range t.Edges {
@@ -811,7 +825,47 @@ func derives(v ssa.Value, opts flowOpts, pred func(ssa.Value) bool) bool {
 			if opts.Arith {
 				return walk(t.X) || walk(t.Y)
 			}
+		case *ssa.FreeVar:
+			// captured variable: continue at the binding in the enclosing function
+			fn := t.Parent()
+			if fn.Parent() != nil {
+				idx := -1
+				for i, fv := range fn.FreeVars {
+					if fv == t {
+						idx = i
+					}
+				}
+				found := false
+				eachInstr(fn.Parent(), func(in ssa.Instruction) {
+					if mc, ok := in.(*ssa.MakeClosure); ok && mc.Fn == ssa.Value(fn) && idx >= 0 && idx < len(mc.Bindings) {
+						if walk(mc.Bindings[idx]) {
+							found = true
+						}
+					}
+				})
+				return found
+			}
+		case *ssa.Alloc:
+			// a variable cell: everything stored into it
+			if refs := t.Referrers(); refs != nil {
+				for _, r := range *refs {
+					if st, ok := r.(*ssa.Store); ok && st.Addr == ssa.Value(t) {
+						if walk(st.Val) {
+							return true
+						}
+					}
+				}
+			}
 		case *ssa.Call:
+			if opts.Returns && t.Call.Signature().Results().Len() == 1 {
+				if f := t.Call.StaticCallee(); f != nil && f.Blocks != nil {
+					for _, r := range returnsOf(f) {
+						if len(r.Results) == 1 && walk(r.Results[0]) {
+							return true
+						}
+					}
+				}
+			}
 			if opts.ThroughAllCalls || opts.ThroughCalls[cname(t)] {
 				for _, a := range t.Call.Args {
 					if walk(a) {
@@ -908,11 +962,43 @@ func returnsOf(fn *ssa.Function) []*ssa.Return {
 	var out []*ssa.Return
 	eachInstr(fn, func(in ssa.Instruction) {
 		if r, ok := in.(*ssa.Return); ok {
+			if fn.Recover != nil && r.Block() == fn.Recover {
+				return // only reached when a deferred call recovers a panic
+			}
 			out = append(out, r)
 		}
 	})
 	sort.Slice(out, func(i, j int) bool { return out[i].Pos() < out[j].Pos() })
 	return out
+}
+
+// retVal returns operand i of a return, looking through the spill of named
+// results that go/ssa introduces in functions with defers (the operand is
+// then a load of a local cell stored earlier in the same block).
+func retVal(ret *ssa.Return, i int) ssa.Value {
+	v := ret.Results[i]
+	ld, ok := v.(*ssa.UnOp)
+	if !ok || ld.Op != token.MUL {
+		return v
+	}
+	cell, ok := ld.X.(*ssa.Alloc)
+	if !ok {
+		return v
+	}
+	b := ret.Block()
+	var last ssa.Value
+	for _, in := range b.Instrs {
+		if in == ssa.Instruction(ld) {
+			break
+		}
+		if st, ok := in.(*ssa.Store); ok && st.Addr == ssa.Value(cell) {
+			last = st.Val
+		}
+	}
+	if last != nil {
+		return last
+	}
+	return v
 }
 
 // errResultIndex returns the index of the error result of fn, or -1.
@@ -936,7 +1022,7 @@ func classifyReturns(fn *ssa.Function) (success, failure []*ssa.Return) {
 			success = append(success, r)
 			continue
 		}
-		v := r.Results[ei]
+		v := retVal(r, ei)
 		if isNilConst(v) {
 			success = append(success, r)
 			continue
@@ -987,4 +1073,30 @@ func knownNonNilAt(v ssa.Value, at ssa.Instruction) bool {
 	}
 	ok, _ := guarded(fn, at, mkEdgeSet(edges), nil)
 	return ok
+}
+
+// instrPos gives a usable source position for instructions that carry none
+// (If, Jump, Store of spilled values): the nearest earlier position in the block.
+func instrPos(in ssa.Instruction) token.Pos {
+	if in.Pos().IsValid() {
+		return in.Pos()
+	}
+	if ifi, ok := in.(*ssa.If); ok {
+		if v, ok := ifi.Cond.(ssa.Instruction); ok && v.Pos().IsValid() {
+			return v.Pos()
+		}
+	}
+	b := in.Block()
+	idx := instrIndex(in)
+	for i := idx; i >= 0; i-- {
+		if b.Instrs[i].Pos().IsValid() {
+			return b.Instrs[i].Pos()
+		}
+	}
+	for _, x := range b.Instrs {
+		if x.Pos().IsValid() {
+			return x.Pos()
+		}
+	}
+	return in.Parent().Pos()
 }
